@@ -100,3 +100,57 @@ def target_cli_wrappers():
                "width": a("weights_width"), "num_points": a("num_points"), "polynomial_order": a("polynomial_order"), "num_iterations": a("num_iterations"),
                "admittance": a("admittance"), "num_procs": a("num_procs")})
     return ("cli/test:wrappers forward every option", "cli/test", "command", run)
+
+
+
+def target_perform_tests_dispatch():
+    """exploratory._perform_tests: the three implementations are called with the caller's values, every one of them unchanged and at
+    the parameter it is meant for -- decided by RUNNING the real function with recording stand-ins for `_use_cnls`,
+    `_use_matrix_inversion`, `_use_least_squares_fitting` (bound by the callees' real signatures, read from the tree) on
+    distinctive values (objects compared by identity, numbers that any rounding changes, every combination of the three flags)."""
+    import itertools
+    from pyvc import overload as O
+
+    def run(sess: Session):
+        callees = {}
+        for name in ("_use_cnls", "_use_matrix_inversion", "_use_least_squares_fitting"):
+            a = core.find_def(KK_E, name).args
+            callees[name] = [x.arg for x in a.posonlyargs + a.args + a.kwonlyargs]
+        rename = {"_use_cnls": {"method": "cnls_method"}}
+        n_calls = 0
+        for test, (cap, ind, adm) in itertools.product(("cnls", "complex-inv", "real-inv", "imaginary-inv", "complex", "real", "imaginary"), itertools.product((False, True), repeat=3)):
+            got = []
+
+            def stub(name):
+                def f(*args, **kw):
+                    bound = dict(zip(callees[name], args))
+                    bound.update(kw)
+                    got.append((name, bound, len(args) + len(kw)))
+                    return ("fits", name)
+                return f
+            vals = dict(test=test, f=object(), Z_exp=object(), weight=object(), automatically_limit_num_RC=object(), num_RCs=[3, 4], add_capacitance=cap, add_inductance=ind,
+                        admittance=adm, log_F_ext=0.33370001234567, cnls_method="powell", max_nfev=137, num_procs=3, timeout=59, prog=object())
+            ns = {n: stub(n) for n in callees}
+            O.load(KK_E, ["_perform_tests"], ns)
+            out = ns["_perform_tests"](**vals)
+            want_callee = "_use_cnls" if test == "cnls" else ("_use_matrix_inversion" if test.endswith("-inv") else "_use_least_squares_fitting")
+            tag = f"[test={test}, C={cap}, L={ind}, Y={adm}]"
+            ok = len(got) == 1 and got[0][0] == want_callee and out == ("fits", want_callee)
+            sess.check("post", [], z3.BoolVal(ok), 0, label=f"{tag}exactly {want_callee} runs and its fits are returned")
+            if not ok:
+                continue
+            n_calls += 1
+            name, bound, n = got[0]
+            sess.check("call-pre", [], z3.BoolVal(n == len(callees[name]) and set(bound) == set(callees[name])), 0, label=f"{tag}{name} receives each of its parameters once")
+            bad = []
+            for p_, v in bound.items():
+                src = rename.get(name, {}).get(p_, p_)
+                want = vals[src] if p_ != "test" else test.replace("-inv", "")
+                same = (v is want) if type(want) is object else (type(v) is type(want) and v == want)
+                if not same:
+                    bad.append(f"{p_}={v!r} (caller has {src}={want!r})")
+            ob = sess.check("call-pre", [], z3.BoolVal(not bad), 0, label=f"{tag}every value reaches {name} unchanged, at the parameter it is meant for")
+            if bad:
+                ob.detail = "; ".join(bad[:4])
+        sess.check("cover", [], z3.BoolVal(n_calls == 56), 0, label=f"dispatches checked: {n_calls}")
+    return (f"{KK_E}:_perform_tests", KK_E, "_perform_tests", run)
